@@ -519,7 +519,7 @@ def main(tier: str) -> int:
     res.assumptions = ['values are observed by a tracing subclass of the real bytecode compiler (vf/monitors/trace.py); the hooks return their argument unchanged',
                        'facts are checked on the values produced up to a raise as well; only list identities created by the language routes occur (helpers return numbers)',
                        'programs the analyses reject (TypeInferError ...) are counted in analysis_errors and contribute no facts for that analysis']
-    run_shards('vf.checks.c13', 16, tier, s, timeout=1500 if tier == 'quick' else 3400, res=res)
+    run_shards('vf.checks.c13', 16 if tier == 'quick' else 48, tier, s, timeout=1500 if tier == 'quick' else 3400, res=res)
     if not res.violations:
         fc = res.extra.get('facts_nontrivial', {})
         low = [a for a in ANALYSES if fc.get(a, 0) < 50]
